@@ -9,3 +9,4 @@ pub mod ball;
 pub mod vm;
 pub mod evalrun;
 pub mod nb;
+pub mod ptext;
